@@ -104,6 +104,26 @@ def run_case(case):
             exp = np.asarray(getattr(ref, m)(arg), dtype=float)
             if not np.allclose(got, exp, rtol=1e-14, atol=0):
                 bad("evaluation", {"method": m, "got": got, "expected": exp, "fixed": fixed}, stage="evaluate")
+        # the same instance built with POSITIONAL plain values (decoys for the fixed ones) next to the f_ keywords
+        try:
+            instp = cls(*[TRUE[fam][n] for n in names], **fkw)
+        except Exception as e:
+            instp = None
+            bad("construction", {"style": "positional", "type": type(e).__name__, "msg": str(e)[:120]}, stage="parameters")
+        if instp is not None:
+            for n, v in fixed.items():
+                count["checks"] += 1
+                if instp.parameters[n] != v:
+                    bad("construction", {"param": n, "fixed": v, "got": instp.parameters[n], "style": "positional"}, stage="parameters")
+            for n in free:
+                if instp.parameters[n] != TRUE[fam][n]:
+                    bad("construction", {"param": n, "free_value": TRUE[fam][n], "got": instp.parameters[n], "style": "positional"}, stage="parameters")
+            for m, arg in (("cdf", xs), ("pdf", xs), ("icdf", np.array([0.1, 0.5, 0.9]))):
+                count["checks"] += 1
+                got = np.asarray(getattr(instp, m)(arg), dtype=float)
+                exp = np.asarray(getattr(ref, m)(arg), dtype=float)
+                if not np.allclose(got, exp, rtol=1e-14, atol=0):
+                    bad("evaluation", {"method": m, "got": got, "expected": exp, "fixed": fixed, "style": "positional"}, stage="evaluate")
         # the fixed value is also used when another parameter is passed explicitly to the call
         for fn in free:
             alt = FIXVAL[role[fn]][1]
@@ -120,6 +140,16 @@ def run_case(case):
                 exp = np.asarray(getattr(ref2, m)(arg), dtype=float)
                 if not np.allclose(got, exp, rtol=1e-14, atol=0, equal_nan=True):
                     bad("evaluation", {"method": m, "explicit": fn, "got": got, "expected": exp, "fixed": fixed}, stage="evaluate")
+                # the same call with positional parameters (None = "use the instance's value")
+                count["checks"] += 1
+                pos = [alt if n == fn else None for n in names]
+                try:
+                    gotp = np.asarray(getattr(inst, m)(arg, *pos), dtype=float)
+                except Exception as e:
+                    bad("evaluation", {"method": m, "explicit_positional": fn, "type": type(e).__name__, "msg": str(e)[:120]}, stage="evaluate")
+                    continue
+                if not np.allclose(gotp, exp, rtol=1e-14, atol=0, equal_nan=True):
+                    bad("evaluation", {"method": m, "explicit_positional": fn, "got": gotp, "expected": exp, "fixed": fixed}, stage="evaluate")
         s1 = np.asarray(inst.draw_sample(5, random_state=3))
         s2 = np.asarray(ref.draw_sample(5, random_state=3))
         if not np.allclose(s1, s2, rtol=1e-14, atol=0):
